@@ -23,7 +23,7 @@ Spec == Init /\ [][Next]_k
 (* the plan of every unit holds both sides of the split boundary, the exact-multiple case and the limit S itself *)
 PlanCoversBoundaries == \A i \in 1..Len(Req) : LET S == Req[i].S  B == BoundaryN(S, Req[i].small) IN
     S >= 4 => /\ S \in B /\ (S - 1) \in B /\ (S + 1) \in B
-              /\ \E n \in B : n < S /\ S % n = 0
+              /\ (Divisors(S) # {} \/ Req[i].small) => \E n \in B : n < S /\ S % n = 0
               /\ \E n \in B : OverSMax(S, n) /\ NParts(S, n) = 2
               /\ \E n \in B : OverSMax(S, n) /\ NParts(S, n) >= 3
 =============================================================================
